@@ -1,4 +1,5 @@
 import QuiverModel.Core.Packaging.Codec
+import QuiverModel.Lemmas.Packaging.Canon
 /-
 qm_c10 — driver for the renaming validator (M-Packaging). Requests:
   (prog A …) / (prog B …)       store a program in slot A / B          → ok <sizes> | bad-prog <why>
@@ -17,7 +18,7 @@ structure C10State where
   b : Option Prog := none
 
 def sizes (P : Prog) : String :=
-  s!"consts={P.consts.size} fns={P.fns.size} builtins={P.builtins.size} tuples={P.tuples.size} types={P.types.size}"
+  s!"consts={P.consts.size} fns={P.fns.size} builtins={P.builtins.size} tuples={P.tuples.size} types={P.types.size} canon-computed={P.canon.isEmpty || P.canonComputedB}"
 
 def answer (P P' : Prog) (e e' : Nat) : String :=
   match checkRenamingExplain P P' e e' with
